@@ -39,6 +39,10 @@ ATTACH = {
     "fast.rs": ("src/debt/fast.rs", "#[cfg(arc_swap_verif)]\n#[path = \"../verif_h/fast.rs\"]\npub(crate) mod verif_h;\n", "crate::debt::verif_h::fast_h", "crate::debt::fast::verif_h"),
     "hybrid.rs": ("src/strategy/hybrid.rs", "#[cfg(arc_swap_verif)]\n#[path = \"../verif_h/hybrid.rs\"]\npub(crate) mod verif_h;\n", "crate::strategy::hybrid::verif_h"),
 }
+# overlay files that are nested modules of another overlay module
+NESTED = {
+    "hybrid_rg.rs": "crate::strategy::hybrid::verif_h::rg",
+}
 # files that are sub-modules of crate::verif_h (declared inside mod.rs)
 ROOT_SUBMODULES = ["refcnt", "api", "env", "cache", "access", "serde_h", "rwlock", "shim"]
 
@@ -87,6 +91,9 @@ class Harness:
         if base in ATTACH:
             self.module = ATTACH[base][2]
             self.real_module = ATTACH[base][3] if len(ATTACH[base]) > 3 else ATTACH[base][2]
+        elif base in NESTED:
+            self.module = NESTED[base]
+            self.real_module = self.module
         else:
             self.module = "crate::verif_h::" + base[:-3]
             self.real_module = self.module
